@@ -307,6 +307,11 @@ func writeRecordConverters(w *formatting.IndentedWriter, t *dsl.RecordDefinition
 			w.Indented(func() {
 				fmt.Fprintf(w, "it->get_to(value.%s);\n", common.FieldIdentifierName(field.Name))
 			})
+			// An omitted (null) field: the destination may be a reused object that still holds an earlier value
+			w.WriteStringln("} else {")
+			w.Indented(func() {
+				fmt.Fprintf(w, "value.%s = {};\n", common.FieldIdentifierName(field.Name))
+			})
 			w.WriteStringln("}")
 		}
 	})
